@@ -111,10 +111,7 @@ func newYarnSpinnerCommand(command any) (YarnSpinnerCommand, error) {
 				errChan <- fmt.Errorf("command returned a nil chan")
 				return errChan
 			}
-			switch returnChan := outputParameters[0].Interface().(type) {
-			case <-chan error:
-				return returnChan
-			case chan error:
+			if returnChan, ok := outputParameters[0].Convert(typeReceiveErrChan).Interface().(<-chan error); ok {
 				return returnChan
 			}
 			errChan <- fmt.Errorf("command did not return a chan error like expected")
@@ -165,9 +162,12 @@ func checkCommandOutputParameters(commandType reflect.Type) (returnSignature, er
 
 var _ commandCaller = (*commandStorer)(nil)
 
+var typeReceiveErrChan = reflect.TypeOf((<-chan error)(nil))
+
+// isTypeErrChan tells whether t is a channel that the runner can receive errors from.
 func isTypeErrChan(t reflect.Type) bool {
 	if t.Kind() != reflect.Chan {
 		return false
 	}
-	return t.Elem().ConvertibleTo(typeError)
+	return t.ConvertibleTo(typeReceiveErrChan)
 }
